@@ -34,3 +34,12 @@ Fixpoint diff_count {A} (neqb : A -> A -> bool) (x y : list A) : nat :=
   | a :: x', b :: y' => (if neqb a b then 1 else 0) + diff_count neqb x' y'
   | _, _ => 0
   end.
+
+(* T is a right inverse of S on R^n:  S T = I *)
+Definition right_inverse (n : nat) (S T : list (list R)) : Prop :=
+  forall i j, (i < n)%nat -> (j < n)%nat ->
+    sigma n (fun k => entry S i k * entry T k j) = if Nat.eqb i j then 1 else 0.
+
+(* data matrix as a list of rows: value of column c in row k minus the column mean mu_c *)
+Definition centred (rows : list (list R)) (mu : list R) (k c : nat) : R :=
+  nth c (nth k rows []) 0 - nth c mu 0.
